@@ -241,6 +241,74 @@ class ConcreteDraws(Draws):
         return v
 
 
+class _ProbeSkip(Exception):
+    pass
+
+
+class RandomDraws(Draws):
+    """Pseudo-random concrete draws (deterministic per seed), biased toward the ends of every range.  Used only to PROBE an
+    instance the solver could not decide (paths ended UNKNOWN): whatever such a run shows is a fact about the real code on
+    concrete inputs; it never contributes to a 'holds' verdict."""
+
+    def __init__(self, seed, twin=False):
+        Draws.__init__(self)
+        import random
+        self.rnd = random.Random(seed)
+        self.twin = twin
+
+    def _int(self, lo, hi, name):
+        r = self.rnd.random()
+        if r < 0.15:
+            return lo
+        if r < 0.3:
+            return hi
+        if r < 0.45 and hi - lo > 4:
+            return self.rnd.choice([lo + 1, hi - 1, (lo + hi) // 2])
+        return self.rnd.randint(lo, hi)
+
+    def _bool(self, name):
+        return self.rnd.random() < 0.5
+
+    def _bytes(self, lo, hi, name):
+        n = self.rnd.choice([lo, hi, self.rnd.randint(lo, hi)])
+        kind = self.rnd.random()
+        if kind < 0.2:
+            return bytes(n)
+        if kind < 0.4:
+            return bytes([255] * n)
+        return bytes(self.rnd.randrange(256) for _ in range(n))
+
+    def _ignore(self):
+        raise _ProbeSkip()
+
+
+def probe(fn, params, tries=300, seconds=15.0, seed=0):
+    """concrete probes of an undecided instance -> first violation found as dict(kind, sig, draws) or None"""
+    import time as _t
+    t0 = _t.process_time()
+    for k in range(tries):
+        if _t.process_time() - t0 > seconds:
+            break
+        d = RandomDraws(seed * 100003 + k)
+        install_logtrap().reset()
+        v = None
+        try:
+            fn(d, **params)
+        except Violation as e:
+            v = e
+        except (Reached, _ProbeSkip, HarnessError):
+            continue
+        except Exception as e:
+            if raised_in_harness(e):
+                continue
+            v = Violation("escaped-exception", exc=type(e).__name__, where="?", msg=str(e)[:120])
+        if v is None and d.flags:
+            v = d.flags[0]
+        if v is not None:
+            return {"kind": v.kind, "sig": jsonable(v.sig), "draws": jsonable([(n, x) for n, x in d.log]), "probe": k}
+    return None
+
+
 class Inst:
     """One obligation: a harness function with concrete instance parameters."""
 
